@@ -205,6 +205,15 @@ def run(ctx) -> None:
         raise AnalysisError("anchor vanished: while loop of InotifyBuffer.run")
     W = wl[0]
     flagvars = set(re.findall(r"not (\w+)", W.raw))
+    # a flag that makes the loop `break` once the batch has been handed over is a termination flag as well:
+    #     for ...: ... flag = True ...        if flag: break
+    for b in W.extra["paths"]:
+        if b.outcome == ("break",):
+            cs = [e for e in b.evs if e.kind == "cond"]
+            if cs and cs[-1].extra.get("truth") is True:
+                m_ = re.fullmatch(r"(\w+)(@after\w+)?", cs[-1].text)
+                if m_:
+                    flagvars.add(m_.group(1))
     # the thread's own stop event is a termination flag too, when the loop condition consults it
     event_flag = "should_keep_running()" in W.raw or "_stopped_event.is_set()" in W.raw
     ctx.check(bool(flagvars) or event_flag, RR, "reader loop condition tests a termination flag", f"loop condition `{W.raw}` tests neither a negated local flag nor the thread's stop event", bf.loc)
